@@ -57,7 +57,7 @@ ALPH = (list("abcXYZ09") + list(PUNCT) * 2 + [" ", " ", "\t", "é", "的", "\xa0
 
 
 def floors(tier):
-    f = {"compared": 200000 if tier == "quick" else 5000000}
+    f = {"compared": 200000 if tier == "quick" else 5000000, "named_references_enumerated": 1500, "long_texts": 400}
     for c in CTX:
         for form in ("bs", "ref"):
             f[f"ctx.{c}.{form}"] = 3000
@@ -159,6 +159,26 @@ def run(ctx):
     for (c, f), s in seen.items():
         if len(s) == len(PUNCT):
             ctx.count(f"allpunct.{c}.{f}")
+    # every named character reference HTML5 knows (those that denote one admissible character), in three contexts
+    import html.entities
+    names = sorted(n for n, v in html.entities.html5.items() if n.endswith(";") and len(v) == 1 and valid_ref_code(ord(v)) and not v.isspace())
+    for i, nme in enumerate(names):
+        if not ctx.mine(i):
+            continue
+        t = html.entities.html5[nme]
+        for cname in ("para", "linktext", "alt", "title_dq", "cell"):
+            one(ctx, cname, "ref", t, "&" + nme, "cm")
+        ctx.count("named_references_enumerated")
+    ctx.info["named_references_total"] = len(names)
+    # long texts: escaping multiplies the source length (a 200-character text is >1000 characters when written as references)
+    for k in range(ctx.scale(600, 20000)):
+        n = rng.choice([170, 200, 250, 400, 999, 1000, 1100])
+        t = "".join(rng.choice("abcdeXYZ *_[]()<>&\"'`~!#") for _ in range(n)).strip() or "a"
+        form = rng.choice(["bs", "ref", "ref"])
+        e = esc_bs(t) if form == "bs" else esc_ref(rng, t)
+        for cname in ("para", "linktext", "alt", "title_dq", "head", "em_tight"):
+            one(ctx, cname, form, t, e, rng.choice(list(CONFS)))
+        ctx.count("long_texts")
     # corpus-derived texts: single lines taken from the spec, escaped wholesale
     lines = []
     for _, t in gen.corpus()[:700]:
